@@ -91,7 +91,7 @@ func checkC16(c *Ctx) {
 	c.Min("R2", "guarded sites (membership writes, seat-manager assign/remove, hand actions)", len(sites), 17)
 	for _, s := range sites {
 		f := s.in.Parent()
-		c.Check(li.Held(s.in, EK), "R2", f.Name()+":"+s.what, p.InstrPos(s.in), "engine mutex must-held", "the engine mutex is not held on every path/caller reaching this "+s.what+" (lockset "+li.At(s.in).String()+")")
+		c.Check(li.Held(s.in, EK), "R2", fnName(f)+":"+s.what, p.InstrPos(s.in), "engine mutex must-held", "the engine mutex is not held on every path/caller reaching this "+s.what+" (lockset "+li.At(s.in).String()+")")
 	}
 
 	// R1: takers and idiom
@@ -128,7 +128,7 @@ func checkC16(c *Ctx) {
 			continue
 		}
 		nExp++
-		c.Check(takers[f], "R1", "exported-taker:"+f.Name(), p.Pos(f.Pos()), "exported method reaching guarded sites takes the engine mutex", "exported method reaches a membership write / seat-manager change / hand action without taking the engine mutex itself")
+		c.Check(takers[f], "R1", "exported-taker:"+fnName(f), p.Pos(f.Pos()), "exported method reaching guarded sites takes the engine mutex", "exported method reaches a membership write / seat-manager change / hand action without taking the engine mutex itself")
 	}
 	c.Min("R1", "exported engine methods reaching guarded sites", nExp, 12)
 
@@ -142,7 +142,7 @@ func checkC16(c *Ctx) {
 		if pk == nil || pk.PkgPath != modPath+"/seat_manager" {
 			continue
 		}
-		if f.Name() == "NewSeatManager" || f.Name() == "init" {
+		if fnName(f) == "NewSeatManager" || fnName(f) == "init" {
 			continue
 		}
 		for _, b := range f.Blocks {
@@ -183,10 +183,10 @@ func checkC16(c *Ctx) {
 				switch op.Op {
 				case "Lock":
 					ok, d := lockIdiom(p, f, SK, "Lock", "Unlock")
-					c.Check(ok, "R3", "idiom:"+f.Name(), p.Pos(f.Pos()), "Lock first, defer Unlock", d)
+					c.Check(ok, "R3", "idiom:"+fnName(f), p.Pos(f.Pos()), "Lock first, defer Unlock", d)
 				case "RLock":
 					ok, d := lockIdiom(p, f, SK, "RLock", "RUnlock")
-					c.Check(ok, "R3", "idiom:"+f.Name(), p.Pos(f.Pos()), "RLock first, defer RUnlock", d)
+					c.Check(ok, "R3", "idiom:"+fnName(f), p.Pos(f.Pos()), "RLock first, defer RUnlock", d)
 				}
 			}
 		}
